@@ -330,7 +330,7 @@ func (b *mockBinlog) Append(onOffset int64, payload []byte) (int64, error) {
 func (b *mockBinlog) AppendASAP(onOffset int64, payload []byte) (int64, error) {
 	return b.doAppend(onOffset, payload, true)
 }
-func (b *mockBinlog) AddStats(stats map[string]string)       {}
+func (b *mockBinlog) AddStats(stats map[string]string)        {}
 func (b *mockBinlog) EngineStatus(status binlog.EngineStatus) {}
 func (b *mockBinlog) GetStartCmd() (binlog.StartCmd, bool)    { return binlog.StartCmd{}, false }
 func (b *mockBinlog) RequestReindex(diff bool, fast bool)     {}
@@ -582,10 +582,7 @@ func (h *hist) observe(step int) int64 {
 func (h *hist) crashImage(step int) (keep int, sum int64) {
 	l := h.l
 	dl := h.durableLevs()
-	keep = len(l.levs)
-	if !h.replica {
-		keep = dl + h.r.Intn(len(l.levs)-dl+1)
-	}
+	keep = dl + h.r.Intn(len(l.levs)-dl+1)
 	var torn []byte
 	if keep < len(l.levs) && h.r.Chance(40) {
 		p := l.levs[keep].padded()
@@ -858,9 +855,6 @@ func (h *hist) doCommit() {
 	l := h.l
 	dl := h.durableLevs()
 	n := dl
-	if h.replica {
-		n = len(l.levs)
-	}
 	if h.r.Chance(20) && n > 0 { // stale commit
 		n = h.r.Intn(n + 1)
 		h.kinds["stale_commit"] = true
@@ -924,8 +918,7 @@ func (h *hist) doDeliver() {
 	}
 	l.bl.mu.Lock()
 	pos := int64(len(l.bl.buf))
-	l.bl.buf = append(l.bl.buf, ev.padded()...)
-	l.bl.durable = int64(len(l.bl.buf))
+	l.bl.buf = append(l.bl.buf, ev.padded()...) // the commit position (durable) lags: it moves only by fsync steps
 	l.bl.mu.Unlock()
 	var newPos int64
 	var err error
@@ -952,10 +945,7 @@ func (h *hist) doDeliver() {
 func (h *hist) doCrash(step int) bool {
 	l := h.l
 	dl := h.durableLevs()
-	keep := len(l.levs)
-	if !h.replica {
-		keep = dl + h.r.Intn(len(l.levs)-dl+1)
-	}
+	keep := dl + h.r.Intn(len(l.levs)-dl+1)
 	keepBytes := sizeOf(l.levs[:keep])
 	l.bl.mu.Lock()
 	buf := append([]byte(nil), l.bl.buf[:keepBytes]...)
@@ -992,13 +982,15 @@ func runHistory(r *vu.Rng, o *vu.Out, root string, idx int, nsteps int, fullObs 
 	for step := 0; step < nsteps && alive; step++ {
 		nops := len(h.ops)
 		switch p := r.Intn(100); {
-		case h.replica && p < 50:
+		case h.replica && p < 45:
 			h.doDeliver()
-		case h.replica && p < 70:
+		case h.replica && p < 58:
+			h.doFsync()
+		case h.replica && p < 73:
 			h.doCommit()
-		case p < 45 || (h.replica && p < 78):
+		case p < 45 || (h.replica && p < 80):
 			h.doWrite(step)
-		case p < 55 || (h.replica && p < 90):
+		case p < 55 || (h.replica && p < 91):
 			h.doRead(step)
 		case h.replica || p >= 95:
 			alive = h.doCrash(step)
@@ -1064,8 +1056,22 @@ func main() {
 	steps := flag.Int("steps", 22, "steps per history")
 	out := flag.String("out", "", "")
 	debug := flag.Bool("debug", false, "print full observations")
+	kills := flag.Int("kills", 0, "thorough tier: number of SIGKILL rounds against a child running the real fsbinlog (kill.go)")
+	child := flag.String("child", "", "internal: work|check")
+	childDir := flag.String("child-dir", "", "internal")
+	childSeed := flag.Uint64("child-seed", 0, "internal")
+	childWait := flag.Bool("child-wait", true, "internal")
+	childGraceful := flag.Bool("child-graceful", false, "internal")
 	flag.Parse()
 	log.SetOutput(io.Discard)
+	switch *child {
+	case "work":
+		killChildWork(*childDir, *childSeed, *childWait)
+		return
+	case "check":
+		killChildCheck(*childDir, *childWait, *childGraceful)
+		return
+	}
 	r := vu.NewRng(*seed)
 	o := vu.NewOut(*out)
 	defer o.Close()
@@ -1098,5 +1104,9 @@ func main() {
 		ns := *steps/2 + r.Intn(*steps)
 		runHistory(r, o, root, i, ns, *debug)
 		progress.Add(1)
+	}
+	if *kills > 0 {
+		progress.Add(1)
+		runKills(r, o, root, *kills)
 	}
 }
